@@ -188,24 +188,29 @@ def ubLoop (T : Option Nat) (start cap : Nat) : Nat → BS → R Unit
         if cap < b.st.now then (.error .fuel, b) else ubLoop T start cap f b
     | (.error e, b) => (.error e, b)
 
+/-- `self.ch.prompt = …` and `self.ch._write_blacklist = […]` at the top of `UBootShell._init_shell` -/
+def ubSetShell (c : UbCfg) (b : BS) : BS :=
+  { b with st := { b.st with prompt := some (.lit c.prompt), blacklist := Params.ubootBlacklist } }
+
 /-- `UBootShell._init_shell` -/
 def ubShell (c : UbCfg) (start cap : Nat) (b : BS) : R Unit :=
-  let b := streamOn 1 b
-  let b := { b with st := { b.st with prompt := some (.lit c.prompt), blacklist := Params.ubootBlacklist } }
-  let r := ubLoop c.timeout start cap (cap + 2) b
+  let r := ubLoop c.timeout start cap (cap + 2) (ubSetShell c (streamOn 1 b))
   (r.1, closeUb (streamOff 1 r.2))
+
+/-- `UBootAutobootIntercept._init_machine`: nothing happens when `autoboot_prompt` is `None` -/
+def ubAutoStage (c : UbCfg) (start : Nat) (b : BS) : R Unit :=
+  match c.autoboot with
+  | none => (.ok (), b)
+  | some p => ubAutoboot c p start b
 
 /-- entering the U-Boot machine: `Connector`, `UBootAutobootIntercept`, `UBootShell`, `init()` -/
 def ubUp (c : UbCfg) (cap : Nat) (b : BS) : R Unit :=
-  let start := b.st.now
-  match (match c.autoboot with
-         | none => ((.ok (), b) : R Unit)
-         | some p => ubAutoboot c p start b) with
-  | (.error e, b) => (.error e, b)
-  | (.ok _, b) =>
-    match ubShell c start cap b with
-    | (.error e, b) => (.error e, b)
-    | (.ok _, b) => (.ok (), mark .ubReady b)
+  match ubAutoStage c b.st.now b with
+  | (.error e, b') => (.error e, b')
+  | (.ok _, b') =>
+    match ubShell c b.st.now cap b' with
+    | (.error e, b') => (.error e, b')
+    | (.ok _, b') => (.ok (), mark .ubReady b')
 
 /-- `Channel.send(buf, read_back=True)` for a payload of one slice, the console reacting to the
     write before the echo is read -/
